@@ -11,4 +11,6 @@ git -C /repo worktree add -q "$wt" HEAD || exit 2
 cd /verif && GBASIS_REPO=$wt VERIF_EVIDENCE_DIR=/verif/_work/seed_evidence ./check "$pid" --tier "$tier" 2>&1 | grep -v "^WARNING conda" | tail -${TAILN:-4}
 rc=${PIPESTATUS[0]}
 git -C /repo worktree remove --force "$wt"
+# the trace translators rewrote coq/Gen/*.v from the mutated tree: put the committed (unchanged-tree) traces back
+git -C /verif checkout -- coq/Gen
 echo "check exit=$rc (1 = detected)"
